@@ -107,7 +107,7 @@ func (fr *Frame) stmt(st *State, s ast.Stmt) flow {
 				vals := fr.multi(st, vs.Values[0], len(vs.Names))
 				for i, nm := range vs.Names {
 					if o, ok := fr.info.Defs[nm].(*types.Var); ok {
-						st.vars[o] = vals[i]
+						x.declVar(st, o, vals[i])
 					}
 				}
 				continue
@@ -118,10 +118,9 @@ func (fr *Frame) stmt(st *State, s ast.Stmt) flow {
 					continue
 				}
 				if i < len(vs.Values) {
-					st.vars[o] = fr.exprAs(st, vs.Values[i], o.Type())
-					st.vars[o] = Val{T: st.vars[o].T, S: st.vars[o].S, Ty: o.Type()}
+					x.declVar(st, o, fr.exprAs(st, vs.Values[i], o.Type()))
 				} else {
-					st.vars[o] = x.zeroVal(o.Type())
+					x.declVar(st, o, x.zeroVal(o.Type()))
 				}
 			}
 		}
@@ -333,7 +332,11 @@ func (fr *Frame) assign(st *State, l ast.Expr, v Val) {
 			x.assignedGlobals = append(x.assignedGlobals, o.Pkg().Name()+"."+o.Name())
 			return
 		}
-		st.vars[o] = Val{T: v.T, S: v.S, Ty: o.Type()}
+		if fr.info.Defs[n] == o {
+			x.declVar(st, o, v)
+		} else {
+			x.setVar(st, o, v)
+		}
 	case *ast.SelectorExpr:
 		sel := fr.info.Selections[n]
 		if sel == nil || sel.Kind() != types.FieldVal {
@@ -428,7 +431,8 @@ func (fr *Frame) returnStmt(st *State, n *ast.ReturnStmt) flow {
 	res := fr.sig.Results()
 	if len(n.Results) == 0 {
 		for _, nv := range fr.named {
-			vals = append(vals, st.vars[nv])
+			gv, _ := fr.x.getVar(st, nv)
+			vals = append(vals, gv)
 		}
 	} else if len(n.Results) == 1 && res.Len() > 1 {
 		vals = fr.multi(st, n.Results[0], res.Len())
@@ -565,9 +569,9 @@ func (fr *Frame) typeSwitchStmt(st *State, n *ast.TypeSwitchStmt) flow {
 		cs.pc = x.namePC(x.and(remaining.pc, cond))
 		if o := fr.info.Implicits[cc]; o != nil {
 			if len(cc.List) == 1 && single != nil && x.u.sortOf(single) == "Int" {
-				cs.vars[o] = Val{T: sv.T, S: "Int", Ty: single}
+				x.declVar(cs, o.(*types.Var), Val{T: sv.T, S: "Int", Ty: single})
 			} else {
-				cs.vars[o] = x.havocVal(o.Name(), o.Type())
+				x.declVar(cs, o.(*types.Var), x.havocVal(o.Name(), o.Type()))
 			}
 		}
 		f := fr.block(cs, cc.Body)
@@ -587,7 +591,7 @@ func (fr *Frame) typeSwitchStmt(st *State, n *ast.TypeSwitchStmt) flow {
 	}
 	if def != nil {
 		if o := fr.info.Implicits[def]; o != nil {
-			remaining.vars[o] = Val{T: sv.T, S: sv.S, Ty: o.Type()}
+			x.declVar(remaining, o.(*types.Var), sv)
 		}
 		f := fr.block(remaining, def.Body)
 		ends = append(ends, f.next)
